@@ -1611,3 +1611,1013 @@ Proof. vm_compute. discriminate. Qed.
 Lemma paml_unequal_lengths_refuted_lemma :
   exists p, paml_parser (py_splitlines (paml_write 1 unequal_recs)) = POk p /\ p <> unequal_recs.
 Proof. eexists. split; [vm_compute; reflexivity|discriminate]. Qed.
+
+(* ------------------------------------------------------------------ PHYLIP, interleaved branch *)
+
+Lemma split_off10 l : phylip_split_line_off 10 l = phylip_split_line l.
+Proof. reflexivity. Qed.
+
+Lemma strip_lead_blanks k b : strip (repeat SP k ++ b) = strip b.
+Proof.
+  unfold strip, strip_by. rewrite lstrip_all; [reflexivity|].
+  intros c Hc. apply repeat_spec in Hc. subst c. reflexivity.
+Qed.
+
+Lemma split_cont_off0 b : ok_line b = true -> phylip_split_line_off 0 (sp10 ++ b) = ([], b).
+Proof.
+  intros Hb. unfold phylip_split_line_off.
+  destruct (ok_line_first b Hb) as [c [t [-> Hc]]].
+  assert (Hfirst : all_space (sp10 ++ c :: t) = false).
+  { unfold all_space. rewrite forallb_app. cbn [forallb]. rewrite Hc. now rewrite andb_false_r. }
+  rewrite Hfirst. cbn [firstn skipn]. change (strip []) with (@nil Z).
+  unfold sp10. rewrite strip_lead_blanks.
+  pose proof (ok_line_props _ Hb) as [_ [_ [Hs _]]]. rewrite Hs. now rewrite filter_sp_ok.
+Qed.
+
+Lemma map2_combine {A B C} (f : A -> B -> C) la : forall lb,
+  map2 f la lb = map (fun p => f (fst p) (snd p)) (combine la lb).
+Proof. induction la as [|a la IH]; intros [|b lb]; cbn; try reflexivity. now rewrite IH. Qed.
+
+Lemma combine_map_fst {A B} (la : list A) : forall (lb : list B), length la = length lb -> map fst (combine la lb) = la.
+Proof. induction la as [|a la IH]; intros [|b lb] H; cbn in *; try reflexivity; try discriminate. f_equal. apply IH. lia. Qed.
+
+Lemma combine_map_snd {A B} (la : list A) : forall (lb : list B), length la = length lb -> map snd (combine la lb) = lb.
+Proof. induction la as [|a la IH]; intros [|b lb] H; cbn in *; try reflexivity; try discriminate. f_equal. apply IH. lia. Qed.
+
+Lemma upd_nth_app {A} (f : A -> A) done : forall x t, upd_nth (length done) f (done ++ x :: t) = done ++ f x :: t.
+Proof. induction done as [|d done IH]; intros x t; cbn; [reflexivity|]. now rewrite IH. Qed.
+
+Lemma mod_block q N j : (j < N)%nat -> Nat.modulo (q * N + j) N = j.
+Proof. intros H. rewrite Nat.add_comm, Nat.mod_add by lia. apply Nat.mod_small. exact H. Qed.
+
+(** the first block creates the entries *)
+Lemma il_first_block N : forall (todo : list (rec * str)) done rest off,
+  (length done + length todo = N)%nat ->
+  (forall p, In p todo -> fst (fst p) <> [] /\ ok_name (phylip_name (fst (fst p))) = true /\ ok_line (snd p) = true) ->
+  (todo <> [] -> off = 10%nat) ->
+  phylip_il_go N off (length done) done (map (fun p => pad10 (fst (fst p)) ++ snd p) todo ++ rest)
+  = phylip_il_go N (match todo with [] => off | _ => O end) N
+      (done ++ map (fun p => (phylip_name (fst (fst p)), [snd p])) todo) rest.
+Proof.
+  induction todo as [|[[n s] b] todo IH]; intros done rest off Hlen H Hoff.
+  - cbn in *. rewrite app_nil_r. replace (length done) with N by lia. reflexivity.
+  - rewrite (Hoff ltac:(discriminate)). cbn [map app fst snd phylip_il_go].
+    destruct (H ((n, s), b) ltac:(now left)) as [Hn [H9 Hb]]. cbn [fst snd] in *.
+    rewrite split_off10, split_first_line by assumption.
+    assert (Hne9 : phylip_name n <> []) by (unfold phylip_name; destruct n; [congruence|discriminate]).
+    destruct (phylip_name n) as [|c9 t9] eqn:E9; [congruence|].
+    cbn [length] in Hlen.
+    assert (Hmod : Nat.modulo (length done) N = length done) by (apply Nat.mod_small; lia).
+    rewrite Hmod. destruct (Nat.ltb_spec (length done) (length done)) as [Hx|_]; [lia|].
+    assert (HS : S (length done) = length (done ++ [(c9 :: t9, [b])])) by (rewrite app_length; cbn; lia).
+    rewrite HS.
+    etransitivity.
+    { apply (IH (done ++ [(c9 :: t9, [b])]) rest
+               (if Nat.eqb (Nat.modulo (length (done ++ [(c9 :: t9, [b])])) N) 0 then O else 10%nat)).
+      - rewrite <- HS. lia.
+      - intros p Hp. apply H. now right.
+      - intros Hne. rewrite <- HS. destruct todo as [|p' todo']; [congruence|]. cbn [length] in Hlen.
+        rewrite Nat.mod_small by lia. reflexivity. }
+    rewrite <- app_assoc. cbn [app]. rewrite <- E9.
+    destruct todo as [|p' todo'].
+    + cbn [length] in Hlen. rewrite app_length. cbn [length]. replace (length done + 1)%nat with N by lia.
+      rewrite Nat.mod_same by lia. reflexivity.
+    + reflexivity.
+Qed.
+
+(** every later block appends one part to every entry *)
+Lemma il_later_block N q : forall (todo : list ((str * list str) * str)) done rest off,
+  (length done + length todo = N)%nat ->
+  (forall p, In p todo -> ok_line (snd p) = true) ->
+  (todo <> [] -> off = O) ->
+  phylip_il_go N off (q * N + length done) (done ++ map fst todo) (map (fun p => sp10 ++ snd p) todo ++ rest)
+  = phylip_il_go N (match todo with [] => off | _ => O end) (q * N + N)
+      (done ++ map (fun p => (fst (fst p), snd (fst p) ++ [snd p])) todo) rest.
+Proof.
+  induction todo as [|[e b] todo IH]; intros done rest off Hlen H Hoff.
+  - cbn in *. replace (length done) with N by lia. reflexivity.
+  - rewrite (Hoff ltac:(discriminate)). cbn [map app fst snd phylip_il_go].
+    assert (Hb : ok_line b = true) by (apply (H (e, b)); now left).
+    rewrite split_cont_off0 by exact Hb.
+    destruct b as [|c t]; [discriminate Hb|]. set (b := c :: t) in *. cbn [length] in Hlen.
+    rewrite mod_block by lia.
+    assert (Hlt : (length done <? length (done ++ e :: map fst todo))%nat = true).
+    { apply Nat.ltb_lt. rewrite app_length. cbn. lia. }
+    rewrite Hlt. rewrite upd_nth_app.
+    replace (S (q * N + length done)) with (q * N + length (done ++ [(fst e, snd e ++ [b])]))%nat
+      by (rewrite app_length; cbn; lia).
+    change (done ++ (fst e, snd e ++ [b]) :: map fst todo) with (done ++ ([(fst e, snd e ++ [b])] ++ map fst todo)).
+    rewrite (app_assoc done).
+    etransitivity.
+    { apply (IH (done ++ [(fst e, snd e ++ [b])]) rest
+               (if Nat.eqb (Nat.modulo (q * N + length (done ++ [(fst e, snd e ++ [b])])) N) 0 then O else O)).
+      - rewrite app_length. cbn. lia.
+      - intros p Hp. apply H. now right.
+      - intros _. destruct (Nat.eqb _ 0); reflexivity. }
+    rewrite <- app_assoc. cbn [app]. destruct todo; [|reflexivity].
+    destruct (Nat.eqb _ 0); reflexivity.
+Qed.
+
+Definition add_row (cache : list (str * list str)) (row : list str) : list (str * list str) :=
+  map2 (fun e b => (fst e, snd e ++ [b])) cache row.
+
+Lemma add_row_length cache row : length cache = length row -> length (add_row cache row) = length cache.
+Proof.
+  unfold add_row. revert row; induction cache as [|e cache IH]; intros [|b row] H; cbn in *; try reflexivity; try discriminate.
+  f_equal. apply IH. lia.
+Qed.
+
+Definition row_ok (N : nat) (row : list str) : Prop := length row = N /\ (forall b, In b row -> ok_line b = true).
+
+Lemma map_snd_combine {A B C} (g : B -> C) (la : list A) : forall lb, length la = length lb ->
+  map (fun p => g (snd p)) (combine la lb) = map g lb.
+Proof. induction la as [|a la IH]; intros [|b lb] H; cbn in *; try reflexivity; try discriminate. f_equal. apply IH. lia. Qed.
+
+Lemma il_later_row N q cache row rest : (1 <= N)%nat -> length cache = N -> row_ok N row ->
+  phylip_il_go N 0 (q * N) cache (map (app sp10) row ++ rest)
+  = phylip_il_go N 0 (q * N + N) (add_row cache row) rest.
+Proof.
+  intros HN Hc [Hr Hok].
+  assert (L := il_later_block N q (combine cache row) [] rest O).
+  assert (Hne : combine cache row <> []).
+  { destruct cache; destruct row; cbn in *; try lia; discriminate. }
+  assert (Hcr : length cache = length row) by lia.
+  etransitivity; [|etransitivity; [apply L|]].
+  - f_equal.
+    + cbn. lia.
+    + cbn [app]. symmetry. apply combine_map_fst. exact Hcr.
+    + f_equal. symmetry. exact (map_snd_combine (app sp10) cache row Hcr).
+  - cbn [length]. rewrite combine_length. lia.
+  - intros p Hp. apply Hok. destruct p as [e b]. apply in_combine_r in Hp. exact Hp.
+  - reflexivity.
+  - destruct (combine cache row) as [|p0 ps] eqn:E; [congruence|]. rewrite <- E. cbn [app].
+    f_equal. unfold add_row. symmetry.
+    exact (map2_combine (fun (e : str * list str) (b : str) => (fst e, snd e ++ [b])) cache row).
+Qed.
+
+Lemma il_later_blocks N : (1 <= N)%nat -> forall rows q cache rest,
+  length cache = N -> (forall row, In row rows -> row_ok N row) ->
+  phylip_il_go N 0 (q * N) cache (flat_map (fun row => [] :: map (app sp10) row) rows ++ rest)
+  = phylip_il_go N 0 ((q + length rows) * N) (fold_left add_row rows cache) rest.
+Proof.
+  intros HN. induction rows as [|row rows IH]; intros q cache rest Hc H.
+  - cbn. now rewrite Nat.add_0_r.
+  - assert (Hrow : row_ok N row) by (apply H; now left).
+    cbn [flat_map app fold_left]. cbn [phylip_il_go phylip_split_line_off all_space forallb].
+    rewrite <- app_assoc. rewrite il_later_row by assumption.
+    replace (q * N + N)%nat with ((S q) * N)%nat by lia.
+    rewrite IH; [| rewrite add_row_length; destruct Hrow; lia | intros r Hr'; apply H; now right].
+    cbn [length]. f_equal. lia.
+Qed.
+
+(** transposing the per-record block lists and adding the rows one by one rebuilds the block lists *)
+Definition cols_ok (K : nat) (bss : list (list str)) : Prop :=
+  forall bs, In bs bss -> length bs = K /\ (forall b, In b bs -> ok_line b = true).
+
+Lemma cols_ok_step K bss : cols_ok (S K) bss ->
+  row_ok (length bss) (map (hd []) bss) /\ cols_ok K (map (@tl str) bss).
+Proof.
+  intros H. split; [split|].
+  - now rewrite map_length.
+  - intros b Hb. apply in_map_iff in Hb. destruct Hb as [bs [<- Hbs]]. destruct (H bs Hbs) as [Hl Hok].
+    destruct bs as [|b0 bs']; [discriminate|]. apply Hok. now left.
+  - intros bs Hbs. apply in_map_iff in Hbs. destruct Hbs as [bs0 [<- Hbs0]]. destruct (H bs0 Hbs0) as [Hl Hok].
+    destruct bs0 as [|b0 bs']; [discriminate|]. cbn in *. split; [lia|]. intros b Hb. apply Hok. now right.
+Qed.
+
+Lemma il_rows_ok K : forall bss, cols_ok K bss -> forall row, In row (il_rows K bss) -> row_ok (length bss) row.
+Proof.
+  induction K as [|K IH]; intros bss H row Hr; [destruct Hr|].
+  cbn [il_rows] in Hr. destruct (cols_ok_step K bss H) as [H1 H2]. destruct Hr as [<-|Hr]; [exact H1|].
+  rewrite <- (map_length (@tl str) bss). now apply IH.
+Qed.
+
+Lemma fold_add_rows K : forall bss cache, cols_ok K bss -> length cache = length bss ->
+  fold_left add_row (il_rows K bss) cache = map2 (fun e bs => (fst e, snd e ++ bs)) cache bss.
+Proof.
+  induction K as [|K IH]; intros bss cache H Hl.
+  - cbn. revert cache Hl. induction bss as [|bs bss IHb]; intros [|e cache] Hl; cbn in *; try reflexivity; try discriminate.
+    destruct (H bs ltac:(now left)) as [Hz _]. destruct bs; [|discriminate].
+    rewrite app_nil_r. rewrite <- surjective_pairing. f_equal. apply IHb; [|lia].
+    intros bs' Hbs'. apply H. now right.
+  - cbn [il_rows fold_left]. destruct (cols_ok_step K bss H) as [H1 H2].
+    rewrite IH; [| exact H2 | rewrite add_row_length by (rewrite map_length; exact Hl); rewrite map_length; exact Hl].
+    unfold add_row. clear IH H1 H2. revert cache Hl. induction bss as [|bs bss IHb]; intros [|e cache] Hl; cbn in *; try reflexivity; try discriminate.
+    destruct (H bs ltac:(now left)) as [Hz _]. destruct bs as [|b0 bs']; [discriminate|]. cbn [hd tl fst snd].
+    rewrite <- app_assoc. cbn [app]. f_equal. apply IHb; [|lia]. intros bs'' Hbs''. apply H. now right.
+Qed.
+
+Lemma blocks_go_length fuel w : forall s s', length s = length s' -> length (blocks_go fuel w s) = length (blocks_go fuel w s').
+Proof.
+  induction fuel as [|f IH]; intros s s' H; [reflexivity|].
+  destruct s as [|c t], s' as [|c' t']; cbn in H; try discriminate; [reflexivity|].
+  cbn [blocks_go length]. f_equal. apply IH. rewrite !skipn_length. cbn [length]. lia.
+Qed.
+
+Lemma il_out_recs m : forall recs : list rec,
+  (forall r, In r recs -> length (snd r) = m) ->
+  forall w, (1 <= w)%nat ->
+  phylip_il_out m (map (fun r => (phylip_name (fst r), phylip_blocks w m (snd r))) recs) = POk (phylip_expected recs).
+Proof.
+  intros recs H w Hw. induction recs as [|[n s] recs IH]; [reflexivity|].
+  cbn [map phylip_il_out fst snd phylip_expected].
+  assert (Hl : length s = m) by (apply (H (n, s)); now left).
+  assert (Hcat : concat (phylip_blocks w m s) = s) by (unfold phylip_blocks; apply concat_blocks_go; lia).
+  rewrite Hcat, Hl, Nat.eqb_refl. fold (phylip_expected recs).
+  rewrite IH by (intros r Hr; apply H; now right). reflexivity.
+Qed.
+
+Lemma split_ws_header3 a b : a <> [] -> b <> [] ->
+  (forall c, In c a -> is_space c = false) -> (forall c, In c b -> is_space c = false) ->
+  split_ws ((a ++ [SP; SP] ++ b) ++ [SP; 73]) = [a; b; [73]].
+Proof.
+  intros Ha Hb Hsa Hsb. unfold split_ws. rewrite <- !app_assoc.
+  rewrite split_ws_go_word by exact Hsa. rewrite app_nil_r.
+  cbn [app split_ws_go is_space SP].
+  destruct (rev a) as [|x xs] eqn:E.
+  { exfalso. apply Ha. rewrite <- (rev_involutive a), E. reflexivity. }
+  rewrite <- E, rev_involutive. cbn -[split_ws_go]. cbn [split_ws_go].
+  rewrite split_ws_go_word by exact Hsb. rewrite app_nil_r. cbn [split_ws_go].
+  destruct (rev b) as [|y ys] eqn:E2.
+  { exfalso. apply Hb. rewrite <- (rev_involutive b), E2. reflexivity. }
+  rewrite <- E2, rev_involutive. reflexivity.
+Qed.
+
+Lemma il_header_tokens recs : split_ws (il_header recs) = [dec (length recs); dec (align_length recs); [73]].
+Proof.
+  unfold il_header, header_line. apply split_ws_header3; try apply dec_nonempty; apply dec_nospace.
+Qed.
+
+Lemma il_header_nobrk recs c : In c (il_header recs) -> is_brk c = false.
+Proof.
+  unfold il_header. intros H. apply in_app_or in H. destruct H as [H|[<-|[<-|[]]]]; [|reflexivity|reflexivity].
+  eapply header_nobrk. exact H.
+Qed.
+
+Definition pblocks (w m : nat) (r : rec) : list str := phylip_blocks w m (snd r).
+
+Lemma final_cache w m : forall recs : list rec,
+  (forall r, In r recs -> pblocks w m r <> []) ->
+  map2 (fun (e : str * list str) (bs : list str) => (fst e, snd e ++ bs))
+       (map (fun p : rec * str => (phylip_name (fst (fst p)), [snd p]))
+            (combine recs (map (hd []) (map (pblocks w m) recs))))
+       (map (@tl str) (map (pblocks w m) recs))
+  = map (fun r => (phylip_name (fst r), pblocks w m r)) recs.
+Proof.
+  induction recs as [|r recs IH]; intros H; [reflexivity|].
+  cbn [map combine map2 fst snd]. pose proof (H r ltac:(now left)) as Hr.
+  destruct (pblocks w m r) as [|b bs] eqn:E; [congruence|]. cbn [hd tl app]. f_equal.
+  apply IH. intros r' Hr'. apply H. now right.
+Qed.
+
+Lemma il_lines_eq w recs :
+  phylip_interleaved_lines w recs =
+  match il_rows (match map (pblocks w (align_length recs)) recs with [] => O | bs :: _ => length bs end)
+                (map (pblocks w (align_length recs)) recs) with
+  | [] => [il_header recs]
+  | row0 :: rows =>
+      il_header recs :: map2 (fun (r : rec) (b : str) => pad10 (fst r) ++ b) recs row0
+        ++ flat_map (fun row : list str => [] :: map (app sp10) row) rows
+  end.
+Proof. reflexivity. Qed.
+
+Lemma phylip_interleaved_lemma w recs : (1 <= w)%nat -> recs <> [] ->
+  (forall r, In r recs -> ok_prec (align_length recs) r = true) ->
+  phylip_parser (py_splitlines (phylip_interleaved_write w recs)) = Some (POk (phylip_expected recs)).
+Proof.
+  intros Hw Hne H.
+  set (m := align_length recs) in *. set (N := length recs).
+  assert (HN : (1 <= N)%nat) by (subst N; destruct recs; [congruence|cbn; lia]).
+  assert (Hprops : forall r, In r recs ->
+            fst r <> [] /\ ok_name (phylip_name (fst r)) = true /\ length (snd r) = m /\
+            (forall c, In c (snd r) -> ok_res c = true) /\ snd r <> [] /\ (forall c, In c (fst r) -> is_brk c = false)).
+  { intros [n s] Hr. apply H in Hr. apply ok_prec_props in Hr. destruct Hr as [Hn [Hokn [H9 [Hsne [Hlen Hall]]]]].
+    cbn [fst snd]. repeat split; try assumption.
+    unfold ok_name in Hokn. apply andb_true_iff in Hokn. destruct Hokn as [Hb _].
+    intros x Hx. pose proof (forallb_In _ _ Hb x Hx) as Hy. cbn in Hy. destruct (is_brk x); [discriminate|reflexivity]. }
+  assert (Hm : (1 <= m)%nat).
+  { destruct recs as [|r0 recs']; [congruence|]. destruct (Hprops r0 ltac:(now left)) as [_ [_ [Hl [_ [Hs _]]]]].
+    destruct (snd r0) as [|c0 t0]; [congruence|]. rewrite <- Hl. cbn [length]. lia. }
+  set (bss := map (pblocks w m) recs).
+  assert (Hbss : map (fun r : rec => blocks_go (S m) w (snd r)) recs = bss) by reflexivity.
+  set (K := match bss with [] => O | bs :: _ => length bs end).
+  assert (Hcols : cols_ok K bss).
+  { intros bs Hbs. subst bss. apply in_map_iff in Hbs. destruct Hbs as [r [<- Hr]].
+    destruct (Hprops r Hr) as [_ [_ [Hl [Hall _]]]]. split.
+    - subst K. destruct recs as [|r0 recs']; [destruct Hr|]. cbn [map].
+      destruct (Hprops r0 ltac:(now left)) as [_ [_ [Hl0 _]]].
+      unfold pblocks, phylip_blocks. apply blocks_go_length. congruence.
+    - intros b Hb. unfold pblocks, phylip_blocks in Hb. eapply blocks_go_ok; [exact Hw|exact Hall|exact Hb]. }
+  assert (Hnonempty : forall r, In r recs -> pblocks w m r <> []).
+  { intros r Hr. destruct (Hprops r Hr) as [_ [_ [Hl [_ [Hs _]]]]]. unfold pblocks, phylip_blocks.
+    destruct (snd r); [congruence|]. cbn. discriminate. }
+  assert (HK : exists K', K = S K').
+  { subst K bss. destruct recs as [|r0 recs']; [congruence|]. cbn [map].
+    pose proof (Hnonempty r0 ltac:(now left)) as Hx. destruct (pblocks w m r0); [congruence|]. cbn. eexists. reflexivity. }
+  destruct HK as [K' HK].
+  unfold phylip_interleaved_write. rewrite il_lines_eq. fold m. fold bss. fold K. rewrite HK.
+  cbn [il_rows]. rewrite HK in Hcols. destruct (cols_ok_step K' bss Hcols) as [Hrow0 Hcols'].
+  assert (Hlb : length bss = N) by (subst bss N; now rewrite map_length).
+  rewrite Hlb in Hrow0.
+  assert (Hrows : forall row, In row (il_rows K' (map (@tl str) bss)) -> row_ok N row).
+  { intros row Hr. rewrite <- Hlb, <- (map_length (@tl str) bss). now apply (il_rows_ok K'). }
+  rewrite map2_combine.
+  (* the lines contain no line boundary *)
+  rewrite splitlines_join.
+  2:{ intros l Hl c Hc. destruct Hl as [<-|Hl]; [eapply il_header_nobrk; exact Hc|].
+      apply in_app_or in Hl. destruct Hl as [Hl|Hl].
+      - apply in_map_iff in Hl. destruct Hl as [[r b] [<- Hp]]. cbn [fst snd] in Hc.
+        pose proof (in_combine_l _ _ _ _ Hp) as Hr. pose proof (in_combine_r _ _ _ _ Hp) as Hb.
+        destruct (Hprops r Hr) as [_ [_ [_ [_ [_ Hnb]]]]]. destruct Hrow0 as [_ Hok0].
+        apply in_app_or in Hc. destruct Hc as [Hc|Hc].
+        + apply pad10_chars in Hc. destruct Hc as [Hc| ->]; [now apply Hnb|reflexivity].
+        + apply Hok0 in Hb. apply ok_line_props in Hb. destruct Hb as [_ [Hall _]]. apply Hall in Hc. now apply ok_res_props in Hc.
+      - apply in_flat_map in Hl. destruct Hl as [row [Hrow Hl]]. destruct Hl as [<-|Hl]; [destruct Hc|].
+        apply in_map_iff in Hl. destruct Hl as [b [<- Hb]]. destruct (Hrows row Hrow) as [_ Hokr].
+        apply in_app_or in Hc. destruct Hc as [Hc|Hc].
+        + apply repeat_spec in Hc. subst c. reflexivity.
+        + apply Hokr in Hb. apply ok_line_props in Hb. destruct Hb as [_ [Hall _]]. apply Hall in Hc. now apply ok_res_props in Hc. }
+  unfold phylip_parser, phylip_header. rewrite il_header_tokens, !parse_nat_dec. fold N. fold m.
+  destruct (Nat.eqb_spec N 0) as [E0|_]; [lia|]. destruct (Nat.eqb_spec m 0) as [E0|_]; [lia|]. cbn [orb].
+  f_equal.
+  (* first block *)
+  pose proof (il_first_block N (combine recs (map (hd []) bss)) []
+               (flat_map (fun row => [] :: map (app sp10) row) (il_rows K' (map (@tl str) bss))) 10%nat) as L1.
+  cbn [length app] in L1.
+  assert (Hcl : length (combine recs (map (hd []) bss)) = N).
+  { rewrite combine_length, map_length. subst bss. rewrite map_length. subst N. apply Nat.min_id. }
+  etransitivity; [apply f_equal; etransitivity; [apply L1|]|].
+  - cbn [Nat.add]. exact Hcl.
+  - intros [r b] Hp. cbn [fst snd]. pose proof (in_combine_l _ _ _ _ Hp) as Hr. pose proof (in_combine_r _ _ _ _ Hp) as Hb.
+    destruct (Hprops r Hr) as [Hn [H9 _]]. destruct Hrow0 as [_ Hok0]. repeat split; try assumption. now apply Hok0.
+  - reflexivity.
+  - destruct (combine recs (map (hd []) bss)) as [|p0 ps] eqn:E; [cbn in Hcl; lia|]. rewrite <- E. rewrite <- E in Hcl.
+    rewrite <- (app_nil_r (flat_map _ _)).
+    replace N with (1 * N)%nat at 2 by lia.
+    apply (il_later_blocks N HN).
+    + rewrite map_length. exact Hcl.
+    + exact Hrows.
+  - cbn [phylip_il_go].
+    rewrite (fold_add_rows K' (map (@tl str) bss)); [| exact Hcols' | rewrite !map_length; rewrite combine_length, map_length; subst bss; rewrite map_length; lia].
+    subst bss. rewrite final_cache by exact Hnonempty.
+    apply (il_out_recs m recs); [|exact Hw].
+    intros r Hr. now destruct (Hprops r Hr) as [_ [_ [Hl _]]].
+Qed.
+
+Lemma phylip_interleaved_eq_sequential_lemma w recs : (1 <= w)%nat -> recs <> [] ->
+  (forall r, In r recs -> ok_prec (align_length recs) r = true) ->
+  phylip_parser (py_splitlines (phylip_interleaved_write w recs)) = phylip_parser (py_splitlines (phylip_write w recs)).
+Proof. intros Hw Hne H. rewrite phylip_interleaved_lemma, phylip_roundtrip_lemma by assumption. reflexivity. Qed.
+
+(* ------------------------------------------------------------------ GenBank: the line-based reader *)
+
+Lemma rstrip_id l : (match rev l with c :: _ => is_space c = false | [] => True end) -> rstrip l = l.
+Proof. intros H. unfold rstrip, rstrip_by. rewrite lstrip_id by exact H. apply rev_involutive. Qed.
+
+Definition gl (l : str) : Prop := l <> [] /\ rstrip l = l.
+
+Lemma gb_finder_rec ls : forall cur rest,
+  (forall l, In l ls -> gl l /\ l <> s_double_slash) ->
+  gb_finder cur (ls ++ s_double_slash :: rest)
+  = ((cur ++ ls ++ [s_double_slash]) :: fst (gb_finder [] rest), snd (gb_finder [] rest)).
+Proof.
+  induction ls as [|l ls IH]; intros cur rest H.
+  - cbn [app gb_finder]. change (rstrip s_double_slash) with s_double_slash. cbn. reflexivity.
+  - destruct (H l ltac:(now left)) as [[Hne Hr] Hds]. cbn [app gb_finder]. rewrite Hr.
+    destruct l as [|c t]; [congruence|].
+    destruct (str_eqb_spec (c :: t) [SLASH; SLASH]) as [E|_]; [exfalso; apply Hds; exact E|].
+    rewrite IH by (intros l' Hl'; apply H; now right). now rewrite <- app_assoc.
+Qed.
+
+Lemma is0_new l cur rest : gl l -> (match l with c :: _ => is_space c = false | [] => True end) ->
+  indent_split 0 cur (l :: rest) = cur :: indent_split 0 [l] rest.
+Proof.
+  intros [Hne Hr] Hf. cbn [indent_split]. rewrite Hr. destruct l as [|c t]; [congruence|].
+  cbn [length Nat.ltb Nat.leb nth andb]. rewrite Hf. reflexivity.
+Qed.
+
+Lemma is0_cont l cur rest : gl l -> (match l with c :: _ => is_space c = true | [] => False end) ->
+  indent_split 0 cur (l :: rest) = indent_split 0 (cur ++ [l]) rest.
+Proof.
+  intros [Hne Hr] Hf. cbn [indent_split]. rewrite Hr. destruct l as [|c t]; [congruence|].
+  cbn [length Nat.ltb Nat.leb nth andb]. rewrite Hf. reflexivity.
+Qed.
+
+Lemma is0_conts ols : forall cur rest,
+  (forall l, In l ols -> gl l /\ match l with c :: _ => is_space c = true | [] => False end) ->
+  indent_split 0 cur (ols ++ rest) = indent_split 0 (cur ++ ols) rest.
+Proof.
+  induction ols as [|l ols IH]; intros cur rest H; [now rewrite app_nil_r|].
+  destruct (H l ltac:(now left)) as [Hg Hs]. cbn [app]. rewrite is0_cont by assumption.
+  rewrite IH by (intros l' Hl'; apply H; now right). now rewrite <- app_assoc.
+Qed.
+
+Lemma is0_news es : forall cur l rest,
+  (forall e, In e es -> gl e /\ match e with c :: _ => is_space c = false | [] => True end) ->
+  gl l -> (match l with c :: _ => is_space c = false | [] => True end) ->
+  indent_split 0 cur (es ++ l :: rest) = (cur :: map (fun e => [e]) es) ++ indent_split 0 [l] rest.
+Proof.
+  induction es as [|e es IH]; intros cur l rest H Hl Hf.
+  - cbn [app map]. now apply is0_new.
+  - destruct (H e ltac:(now left)) as [Hg Hs]. cbn [app map]. rewrite is0_new by assumption.
+    rewrite IH; [reflexivity| intros e' He'; apply H; now right | exact Hl | exact Hf].
+Qed.
+
+(** tokens of the LOCUS line *)
+Lemma split_ws_word w r : w <> [] -> (forall c, In c w -> is_space c = false) ->
+  split_ws_go [] (w ++ SP :: r) = w :: split_ws_go [] r.
+Proof.
+  intros Hne Hs. rewrite split_ws_go_word by exact Hs. rewrite app_nil_r. cbn [split_ws_go is_space SP].
+  destruct (rev w) as [|x xs] eqn:E.
+  { exfalso. apply Hne. rewrite <- (rev_involutive w), E. reflexivity. }
+  rewrite <- E, rev_involutive. reflexivity.
+Qed.
+
+Lemma gb_token_props n : gb_token n = true ->
+  n <> [] /\ (forall c, In c n -> is_space c = false) /\ (forall c, In c n -> plain c = true).
+Proof.
+  unfold gb_token. intros H. apply andb_true_iff in H. destruct H as [H1 H2].
+  split; [destruct n; [discriminate|discriminate]|].
+  split; intros c Hc; pose proof (forallb_In _ _ H2 c Hc) as Hx; cbn in Hx; apply andb_true_iff in Hx; destruct Hx as [Hp Hs].
+  - destruct (is_space c); [discriminate|reflexivity].
+  - exact Hp.
+Qed.
+
+Lemma locus_tokens name n : gb_token name = true ->
+  exists T, split_ws (gb_locus_of name n) = s_locus :: name :: dec n :: T.
+Proof.
+  intros Hn. apply gb_token_props in Hn. destruct Hn as [Hne [Hs _]].
+  unfold split_ws, gb_locus_of. eexists.
+  change (repeat SP 7) with (SP :: repeat SP 6).
+  match goal with |- context [ (SP :: repeat SP 6) ++ ?r ] =>
+    change ((SP :: repeat SP 6) ++ r) with (SP :: (repeat SP 6 ++ r)) end.
+  rewrite split_ws_word; [| discriminate | intros c Hc; cbn in Hc; unfold is_space; lia].
+  cbn [repeat app split_ws_go is_space SP]. 
+  rewrite split_ws_word by assumption.
+  rewrite split_ws_word; [reflexivity| apply dec_nonempty | apply dec_nospace].
+Qed.
+
+Lemma handle_locus name n lo sq : gb_token name = true ->
+  gb_handle [gb_locus_of name n] lo sq = GOk (Some name) sq.
+Proof.
+  intros Hn. destruct (locus_tokens name n Hn) as [T ET]. unfold gb_handle. rewrite ET. cbv beta iota.
+  assert (E1 : str_eqb s_locus s_locus = true) by reflexivity. rewrite E1. rewrite parse_nat_dec. reflexivity.
+Qed.
+
+Lemma handle_extra e lo sq : ok_gb_extra e = true -> gb_handle [e] lo sq = GOk lo sq.
+Proof.
+  unfold ok_gb_extra. intros H. apply andb_true_iff in H. destruct H as [_ H].
+  unfold gb_handle. destruct (split_ws e) as [|w toks]; [discriminate|].
+  unfold safe_label in H. apply andb_true_iff in H. destruct H as [H1 H2].
+  apply negb_true_iff in H1, H2.
+  repeat (apply orb_false_iff in H1; destruct H1 as [H1 ?]).
+  apply orb_false_iff in H2. destruct H2 as [Hq1 Hq2].
+  repeat match goal with E : str_eqb _ _ = false |- _ => rewrite E; clear E end.
+  reflexivity.
+Qed.
+
+Lemma ok_oline_props l : ok_oline l = true ->
+  gl l /\ (match l with c :: _ => is_space c = true | [] => False end) /\
+  startswith l s_origin = false /\ gb_seq_clean l = residues l /\
+  (forall c, In c l -> c = SP \/ is_digit c = true \/ is_lower_letter c = true).
+Proof.
+  unfold ok_oline. intros H. apply andb_true_iff in H. destruct H as [H H3].
+  apply andb_true_iff in H. destruct H as [H1 H2].
+  assert (Hall : forall c, In c l -> c = SP \/ is_digit c = true \/ is_lower_letter c = true).
+  { intros c Hc. pose proof (forallb_In _ _ H2 c Hc) as Hx. cbn beta in Hx.
+    apply orb_true_iff in Hx. destruct Hx as [Hx|Hx]; [|right; now right].
+    apply orb_true_iff in Hx. destruct Hx as [Hx|Hx]; [left; now apply Z.eqb_eq in Hx|right; now left]. }
+  destruct l as [|c t]; [discriminate|].
+  assert (Ec : c = SP) by lia. subst c.
+  split; [split; [discriminate|]|split; [reflexivity|split; [reflexivity|split; [|exact Hall]]]].
+  - apply rstrip_id. destruct (rev (SP :: t)) as [|x xs]; [exact I|].
+    unfold is_lower_letter, is_space in *. lia.
+  - unfold gb_seq_clean, residues. apply filter_ext_in. intros x Hx. apply Hall in Hx.
+    unfold is_digit, is_lower_letter, SP, SLASH in *. lia.
+Qed.
+
+Lemma parse_sequence_olines ols : (forall l, In l ols -> ok_oline l = true) ->
+  concat (map gb_seq_clean (filter (fun l => negb (startswith l s_origin)) ols)) = concat (map residues ols).
+Proof.
+  induction ols as [|l ols IH]; intros H; [reflexivity|].
+  destruct (ok_oline_props l (H l ltac:(now left))) as [_ [_ [Hs [Hc _]]]].
+  cbn [filter]. rewrite Hs. cbn [negb map concat]. rewrite Hc. f_equal. apply IH. intros l' Hl'. apply H. now right.
+Qed.
+
+Lemma handle_origin ols lo sq : (forall l, In l ols -> ok_oline l = true) ->
+  gb_handle (s_origin :: ols) lo sq = GOk lo (Some (concat (map residues ols))).
+Proof.
+  intros H. unfold gb_handle. change (split_ws s_origin) with [s_origin]. cbv beta iota.
+  assert (E1 : str_eqb s_origin s_locus = false) by reflexivity.
+  assert (E2 : str_eqb s_origin s_origin = true) by reflexivity.
+  rewrite E1, E2. f_equal. f_equal. unfold gb_parse_sequence. cbn [filter]. change (startswith s_origin s_origin) with true. cbn [negb].
+  now apply parse_sequence_olines.
+Qed.
+
+Lemma ok_gb_extra_props e : ok_gb_extra e = true ->
+  gl e /\ (match e with c :: _ => is_space c = false | [] => True end) /\ e <> s_double_slash /\
+  (forall c, In c e -> plain c = true) /\ startswith e s_origin = false /\ startswith e s_double_slash = false.
+Proof.
+  unfold ok_gb_extra. intros H.
+  repeat (apply andb_true_iff in H; destruct H as [H ?]).
+  destruct e as [|c t]; [discriminate|].
+  split; [split; [discriminate|]|split; [|split; [|split; [apply forallb_In; exact H|split]]]].
+  - apply rstrip_id. destruct (rev (c :: t)) as [|x xs]; [exact I|]. destruct (is_space x); [discriminate|reflexivity].
+  - destruct (is_space c); [discriminate|reflexivity].
+  - intros E. rewrite E in *. discriminate.
+  - destruct (startswith (c :: t) s_origin); [discriminate|reflexivity].
+  - destruct (startswith (c :: t) s_double_slash); [discriminate|reflexivity].
+Qed.
+
+Lemma ok_gbx_props r : ok_gbx r = true ->
+  gb_token (x_name r) = true /\ (forall e, In e (x_extra r) -> ok_gb_extra e = true) /\
+  x_olines r <> [] /\ (forall l, In l (x_olines r) -> ok_oline l = true).
+Proof.
+  unfold ok_gbx. intros H.
+  apply andb_true_iff in H. destruct H as [H H4]. apply andb_true_iff in H. destruct H as [H H3].
+  apply andb_true_iff in H. destruct H as [H1 H2].
+  split; [exact H1|]. split; [apply forallb_In; exact H2|]. split; [destruct (x_olines r); [discriminate|discriminate]|].
+  apply forallb_In. exact H4.
+Qed.
+
+Lemma locus_line_props name n : gb_token name = true ->
+  gl (gb_locus_of name n) /\ gb_locus_of name n <> s_double_slash /\
+  (forall c, In c (gb_locus_of name n) -> is_brk c = false).
+Proof.
+  intros Hn. apply gb_token_props in Hn. destruct Hn as [_ [_ Hp]]. unfold gb_locus_of. split; [split|split].
+  - discriminate.
+  - apply rstrip_id. rewrite !rev_app_distr. reflexivity.
+  - discriminate.
+  - intros c Hc. apply in_app_or in Hc. destruct Hc as [Hc|Hc]; [cbn in Hc; unfold is_brk; lia|].
+    apply in_app_or in Hc. destruct Hc as [Hc|Hc]; [apply repeat_spec in Hc; subst c; reflexivity|].
+    apply in_app_or in Hc. destruct Hc as [Hc|Hc]; [apply Hp in Hc; now apply plain_props in Hc|].
+    apply in_app_or in Hc. destruct Hc as [Hc|Hc]; [cbn in Hc; unfold is_brk, SP in *; lia|].
+    apply in_app_or in Hc. destruct Hc as [Hc|Hc].
+    + apply dec_nospace in Hc. destruct (is_brk c) eqn:E; [apply brk_is_space in E; congruence|reflexivity].
+    + cbn in Hc. unfold is_brk, SP in *. lia.
+Qed.
+
+Lemma gbx_fields r : ok_gbx r = true ->
+  gb_fields (indent_splitter (gbx_lines r)) None None = GOk (Some (x_name r)) (Some (gbx_seq r)).
+Proof.
+  intros Hr. apply ok_gbx_props in Hr. destruct Hr as [Hn [He [Hone Ho]]].
+  destruct (locus_line_props (x_name r) (x_len r) Hn) as [[Hlne Hlr] _].
+  unfold gbx_lines. cbn [indent_splitter]. rewrite Hlr.
+  destruct (gb_locus_of (x_name r) (x_len r)) as [|c0 t0] eqn:EL; [congruence|]. rewrite <- EL.
+  assert (Hind : indent_of (gb_locus_of (x_name r) (x_len r)) = O).
+  { unfold indent_of, lstrip. rewrite lstrip_id; [apply Nat.sub_diag|]. unfold gb_locus_of. reflexivity. }
+  rewrite Hind.
+  rewrite is0_news.
+  - rewrite is0_conts.
+    + cbn [app indent_split]. change (rstrip s_double_slash) with s_double_slash. cbn [s_double_slash length Nat.ltb Nat.leb nth andb].
+      change (is_space SLASH) with false. cbv iota. cbn [indent_split].
+      (* the fields *)
+      cbn [app gb_fields]. rewrite handle_locus by exact Hn.
+      assert (Hex : forall es lo sq rest, (forall e, In e es -> ok_gb_extra e = true) ->
+                gb_fields (map (fun e => [e]) es ++ rest) lo sq = gb_fields rest lo sq).
+      { induction es as [|e es IH]; intros lo sq rest H; [reflexivity|].
+        cbn [map app gb_fields]. rewrite handle_extra by (apply H; now left). apply IH. intros e' He'. apply H. now right. }
+      rewrite Hex by exact He. cbn [gb_fields]. rewrite handle_origin by exact Ho.
+      reflexivity.
+    + intros l Hl. destruct (ok_oline_props l (Ho l Hl)) as [Hg [Hs _]]. split; assumption.
+  - intros e Hx. destruct (ok_gb_extra_props e (He e Hx)) as [Hg [Hs _]]. split; assumption.
+  - split; [discriminate|reflexivity].
+  - reflexivity.
+Qed.
+
+Lemma gbx_lines_finder recs : (forall r, In r recs -> ok_gbx r = true) ->
+  gb_finder [] (flat_map gbx_lines recs) = (map gbx_lines recs, []).
+Proof.
+  induction recs as [|r recs IH]; intros H; [reflexivity|].
+  assert (Hr : ok_gbx r = true) by (apply H; now left). apply ok_gbx_props in Hr. destruct Hr as [Hn [He [_ Ho]]].
+  cbn [flat_map map]. unfold gbx_lines at 1.
+  change ((gb_locus_of (x_name r) (x_len r) :: x_extra r ++ s_origin :: x_olines r ++ [s_double_slash]) ++ flat_map gbx_lines recs)
+    with ((gb_locus_of (x_name r) (x_len r) :: x_extra r ++ s_origin :: x_olines r ++ [s_double_slash]) ++ flat_map gbx_lines recs).
+  replace ((gb_locus_of (x_name r) (x_len r) :: x_extra r ++ s_origin :: x_olines r ++ [s_double_slash]) ++ flat_map gbx_lines recs)
+    with ((gb_locus_of (x_name r) (x_len r) :: x_extra r ++ s_origin :: x_olines r) ++ s_double_slash :: flat_map gbx_lines recs).
+  2:{ cbn [app]. f_equal. rewrite <- !app_assoc. cbn [app]. rewrite <- app_assoc. reflexivity. }
+  rewrite gb_finder_rec.
+  - rewrite IH by (intros r' Hr'; apply H; now right). cbn [fst snd app]. unfold gbx_lines. f_equal. f_equal. f_equal.
+    rewrite <- app_assoc. reflexivity.
+  - intros l Hl. destruct Hl as [<-|Hl].
+    + destruct (locus_line_props (x_name r) (x_len r) Hn) as [Hg [Hd _]]. split; assumption.
+    + apply in_app_or in Hl. destruct Hl as [Hl|[<-|Hl]].
+      * destruct (ok_gb_extra_props l (He l Hl)) as [Hg [_ [Hd _]]]. split; assumption.
+      * split; [split; [discriminate|reflexivity]|discriminate].
+      * destruct (ok_oline_props l (Ho l Hl)) as [Hg [Hs _]]. split; [exact Hg|].
+        intros E. rewrite E in Hs. cbn in Hs. discriminate.
+Qed.
+
+Lemma gbx_records recs : (forall r, In r recs -> ok_gbx r = true) ->
+  gb_records (map gbx_lines recs) = Some (gbx_expected recs).
+Proof.
+  induction recs as [|r recs IH]; intros H; [reflexivity|].
+  cbn [map gb_records]. rewrite gbx_fields by (apply H; now left).
+  rewrite IH by (intros r' Hr'; apply H; now right). reflexivity.
+Qed.
+
+Lemma gbx_lines_nobrk recs : (forall r, In r recs -> ok_gbx r = true) ->
+  forall l, In l (flat_map gbx_lines recs) -> forall c, In c l -> is_brk c = false.
+Proof.
+  intros H l Hl c Hc. apply in_flat_map in Hl. destruct Hl as [r [Hr Hl]]. apply H in Hr.
+  apply ok_gbx_props in Hr. destruct Hr as [Hn [He [_ Ho]]]. unfold gbx_lines in Hl.
+  destruct Hl as [<-|Hl]; [now apply (locus_line_props (x_name r) (x_len r) Hn)|].
+  apply in_app_or in Hl. destruct Hl as [Hl|[<-|Hl]].
+  - destruct (ok_gb_extra_props l (He l Hl)) as [_ [_ [_ [Hp _]]]]. apply Hp in Hc. now apply plain_props in Hc.
+  - cbn in Hc. unfold is_brk. lia.
+  - apply in_app_or in Hl. destruct Hl as [Hl|[<-|[]]].
+    + destruct (ok_oline_props l (Ho l Hl)) as [_ [_ [_ [_ Hall]]]]. apply Hall in Hc.
+      unfold is_digit, is_lower_letter, is_brk, SP in *. lia.
+    + cbn in Hc. unfold is_brk, SLASH in *. lia.
+Qed.
+
+Lemma gb_lines_roundtrip recs : (forall r, In r recs -> ok_gbx r = true) ->
+  gb_lines_parser (py_splitlines (gbx_write recs)) = GRecs (gbx_expected recs).
+Proof.
+  intros H. unfold gbx_write. rewrite splitlines_join by (apply gbx_lines_nobrk; exact H).
+  unfold gb_lines_parser. rewrite gbx_lines_finder by exact H. cbn [fst snd].
+  rewrite gbx_records by exact H. reflexivity.
+Qed.
+
+Lemma gb_lines_stream recs chunks : (forall r, In r recs -> ok_gbx r = true) ->
+  concat chunks = gbx_write recs ->
+  gb_lines_parser (iter_splitlines chunks) = GRecs (gbx_expected recs).
+Proof.
+  intros H Hc. rewrite iter_splitlines_spec.
+  - rewrite Hc. now apply gb_lines_roundtrip.
+  - rewrite Hc. unfold gbx_write. apply join_lines_only_nl. apply gbx_lines_nobrk. exact H.
+Qed.
+
+(* ------------------------------------------------------------------ GenBank: the bytes reader *)
+
+Lemma split_sep_ne sep k s : split_sep sep k s <> [].
+Proof.
+  revert k; induction s as [|c t IH]; intros k; cbn [split_sep]; [discriminate|].
+  destruct k; [|apply IH]. destruct (startswith (c :: t) sep); [discriminate|].
+  destruct (split_sep sep 0 t); discriminate.
+Qed.
+
+Definition consf (l : str) (ps : list str) : list str :=
+  match ps with [] => [l] | p :: ps' => (l ++ p) :: ps' end.
+
+Lemma split_sep_line w l X : (forall c, In c l -> c <> NL) ->
+  split_sep (NL :: w) 0 (l ++ X) = consf l (split_sep (NL :: w) 0 X).
+Proof.
+  induction l as [|c l IH]; intros H.
+  - cbn [app]. pose proof (split_sep_ne (NL :: w) 0 X). destruct (split_sep (NL :: w) 0 X); [congruence|reflexivity].
+  - cbn [app split_sep startswith]. destruct (Z.eqb_spec c NL) as [E|_]; [exfalso; apply (H c); [now left|exact E]|].
+    cbn [andb]. rewrite IH by (intros y Hy; apply H; now right).
+    pose proof (split_sep_ne (NL :: w) 0 X). destruct (split_sep (NL :: w) 0 X); [congruence|reflexivity].
+Qed.
+
+Lemma split_sep_skip sep a r : split_sep sep (length a) (a ++ r) = split_sep sep 0 r.
+Proof. induction a as [|c a IH]; [reflexivity|]. cbn [length app split_sep]. exact IH. Qed.
+
+Lemma split_sep_hit w X : split_sep (NL :: w) 0 (NL :: w ++ X) = [] :: split_sep (NL :: w) 0 X.
+Proof.
+  cbn [split_sep startswith]. rewrite Z.eqb_refl. cbn [andb].
+  assert (E : startswith (w ++ X) w = true).
+  { induction w as [|y w IH]; [cbn [app]; destruct X; reflexivity|]. cbn [app startswith]. now rewrite Z.eqb_refl, IH. }
+  rewrite E. cbn [length pred]. now rewrite split_sep_skip.
+Qed.
+
+Lemma split_sep_miss w X : startswith X w = false ->
+  split_sep (NL :: w) 0 (NL :: X) = consf [NL] (split_sep (NL :: w) 0 X).
+Proof.
+  intros E. cbn [split_sep startswith]. rewrite Z.eqb_refl, E. cbn [andb].
+  pose proof (split_sep_ne (NL :: w) 0 X). destruct (split_sep (NL :: w) 0 X); [congruence|reflexivity].
+Qed.
+
+Lemma startswith_line w : (forall c, In c w -> c <> NL) -> forall e Z_, startswith (e ++ NL :: Z_) w = startswith e w.
+Proof.
+  induction w as [|y w IH]; intros Hw e Z_; [destruct e; reflexivity|].
+  destruct e as [|c e].
+  - cbn [app startswith]. destruct (Z.eqb_spec NL y) as [E|_]; [exfalso; apply (Hw y); [now left|now symmetry]|reflexivity].
+  - cbn [app startswith]. rewrite IH by (intros x Hx; apply Hw; now right). reflexivity.
+Qed.
+
+Definition nlines (ls : list str) : str := flat_map (fun l => NL :: l) ls.
+
+Definition yok (Y : str) : Prop := Y = [] \/ exists Y', Y = NL :: Y'.
+
+Lemma startswith_yok w : (forall c, In c w -> c <> NL) -> forall e Y, yok Y -> startswith (e ++ Y) w = startswith e w.
+Proof.
+  intros Hw e Y [->|[Y' ->]]; [now rewrite app_nil_r|]. now apply startswith_line.
+Qed.
+
+Lemma yok_nlines ls Y : yok Y -> yok (nlines ls ++ Y).
+Proof. intros H. destruct ls as [|l ls]; [exact H|]. right. cbn [nlines flat_map app]. eexists. reflexivity. Qed.
+
+Lemma split_sep_nlines w : (forall c, In c w -> c <> NL) -> forall ls Y, yok Y ->
+  (forall l, In l ls -> (forall c, In c l -> c <> NL) /\ startswith l w = false) ->
+  split_sep (NL :: w) 0 (nlines ls ++ Y) = consf (nlines ls) (split_sep (NL :: w) 0 Y).
+Proof.
+  intros Hw. induction ls as [|l ls IH]; intros Y HY H.
+  - cbn [nlines flat_map app]. pose proof (split_sep_ne (NL :: w) 0 Y). destruct (split_sep (NL :: w) 0 Y); [congruence|reflexivity].
+  - destruct (H l ltac:(now left)) as [Hl Hs]. cbn [nlines flat_map app]. fold (nlines ls).
+    rewrite <- app_assoc. rewrite split_sep_miss.
+    + rewrite split_sep_line by exact Hl. rewrite IH; [| exact HY | intros l' Hl'; apply H; now right].
+      pose proof (split_sep_ne (NL :: w) 0 Y). destruct (split_sep (NL :: w) 0 Y); [congruence|].
+      cbn [consf app]. now rewrite <- app_assoc.
+    + rewrite startswith_yok; [exact Hs|exact Hw|]. now apply yok_nlines.
+Qed.
+
+(** the text of a record: first line, then the other lines each preceded by a newline *)
+Definition gbx_features (r : gbx) : str := gb_locus_of (x_name r) (x_len r) ++ nlines (x_extra r).
+Definition gbx_body (r : gbx) : str := gbx_features r ++ NL :: s_origin ++ nlines (x_olines r).
+
+Lemma join_lines_nlines l ls : join_lines (l :: ls) = l ++ nlines ls ++ [NL].
+Proof.
+  revert l; induction ls as [|l2 ls IH]; intros l; [cbn; now rewrite app_nil_r|].
+  change (join_lines (l :: l2 :: ls)) with ((l ++ [NL]) ++ join_lines (l2 :: ls)). rewrite IH. cbn [nlines flat_map].
+  rewrite <- !app_assoc. reflexivity.
+Qed.
+
+Lemma nlines_app a b : nlines (a ++ b) = nlines a ++ nlines b.
+Proof. unfold nlines. apply flat_map_app. Qed.
+
+Lemma gbx_record_text r : join_lines (gbx_lines r) = gbx_body r ++ NL :: s_double_slash ++ [NL].
+Proof.
+  unfold gbx_lines. rewrite join_lines_nlines. unfold gbx_body, gbx_features.
+  rewrite nlines_app. cbn [nlines flat_map]. fold (nlines (x_olines r ++ [s_double_slash])).
+  rewrite nlines_app. cbn [nlines flat_map app]. rewrite app_nil_r.
+  rewrite <- !app_assoc. cbn [app]. rewrite <- !app_assoc. reflexivity.
+Qed.
+
+Lemma gbx_text_split recs : gbx_write recs = flat_map (fun r => gbx_body r ++ NL :: s_double_slash ++ [NL]) recs.
+Proof.
+  unfold gbx_write. induction recs as [|r recs IH]; [reflexivity|].
+  cbn [flat_map]. rewrite join_lines_app, gbx_record_text, IH. reflexivity.
+Qed.
+
+Lemma no_nl_of_nobrk l : (forall c, In c l -> is_brk c = false) -> forall c, In c l -> c <> NL.
+Proof. intros H c Hc E. subst c. apply H in Hc. discriminate. Qed.
+
+Lemma gbx_body_props r : ok_gbx r = true ->
+  (forall c, In c (gb_locus_of (x_name r) (x_len r)) -> c <> NL) /\
+  (forall l, In l (x_extra r) -> (forall c, In c l -> c <> NL) /\ startswith l s_origin = false /\ startswith l s_double_slash = false) /\
+  (forall l, In l (x_olines r) -> (forall c, In c l -> c <> NL) /\ startswith l s_origin = false /\ startswith l s_double_slash = false).
+Proof.
+  intros Hr. apply ok_gbx_props in Hr. destruct Hr as [Hn [He [_ Ho]]]. split; [|split].
+  - apply no_nl_of_nobrk. now apply (locus_line_props _ _ Hn).
+  - intros l Hl. destruct (ok_gb_extra_props l (He l Hl)) as [_ [_ [_ [Hp [H1 H2]]]]].
+    split; [|split; assumption]. apply no_nl_of_nobrk. intros c Hc. apply Hp in Hc. now apply plain_props in Hc.
+  - intros l Hl. destruct (ok_oline_props l (Ho l Hl)) as [_ [Hs [H1 [_ Hall]]]].
+    split; [|split; [exact H1|]].
+    + intros c Hc E. subst c. apply Hall in Hc. unfold is_digit, is_lower_letter, SP, NL in Hc. lia.
+    + destruct l as [|c t]; [destruct Hs|]. cbn [startswith s_double_slash]. 
+      destruct (Z.eqb_spec c SLASH) as [E|_]; [subst c; cbn in Hs; discriminate|reflexivity].
+Qed.
+
+Lemma w_slash_nonl : forall c, In c s_double_slash -> c <> NL.
+Proof. intros c Hc. cbn in Hc. unfold SLASH, NL in *. lia. Qed.
+Lemma w_origin_nonl : forall c, In c s_origin -> c <> NL.
+Proof. intros c Hc. cbn in Hc. unfold NL in *. lia. Qed.
+
+(** pieces of data.split(b"\n//") *)
+Lemma gbx_pieces recs : (forall r, In r recs -> ok_gbx r = true) ->
+  split_sep s_nl_slashes 0 (gbx_write recs)
+  = match recs with
+    | [] => [[]]
+    | r :: rest => gbx_body r :: map (fun r' => NL :: gbx_body r') rest ++ [[NL]]
+    end.
+Proof.
+  intros H. rewrite gbx_text_split. unfold s_nl_slashes. change [NL; SLASH; SLASH] with (NL :: s_double_slash).
+  assert (G : forall recs, (forall r, In r recs -> ok_gbx r = true) ->
+            split_sep (NL :: s_double_slash) 0 (NL :: flat_map (fun r => gbx_body r ++ NL :: s_double_slash ++ [NL]) recs)
+            = map (fun r' => NL :: gbx_body r') recs ++ [[NL]]).
+  { clear recs H. induction recs as [|r recs IH]; intros H.
+    - reflexivity.
+    - assert (Hr : ok_gbx r = true) by (apply H; now left). destruct (gbx_body_props r Hr) as [HL [HE HO]].
+      cbn [flat_map map app].
+      rewrite split_sep_miss.
+      2:{ unfold gbx_body, gbx_features, gb_locus_of. reflexivity. }
+      unfold gbx_body at 1, gbx_features. rewrite <- !app_assoc.
+      rewrite split_sep_line by exact HL.
+      rewrite split_sep_nlines; [| exact w_slash_nonl | right; eexists; reflexivity | intros l Hl; destruct (HE l Hl) as [A [_ B]]; split; assumption].
+      cbn [app]. rewrite split_sep_miss by reflexivity.
+      rewrite <- !app_assoc.
+      rewrite split_sep_line by exact w_origin_nonl.
+      rewrite split_sep_nlines; [| exact w_slash_nonl | right; eexists; reflexivity | intros l Hl; destruct (HO l Hl) as [A [_ B]]; split; assumption].
+      rewrite split_sep_hit. cbn [app]. rewrite IH by (intros r' Hr'; apply H; now right).
+      cbn [consf app]. unfold gbx_body, gbx_features. rewrite <- !app_assoc. cbn [app]. rewrite app_nil_r. reflexivity. }
+  destruct recs as [|r recs]; [reflexivity|].
+  assert (Hr : ok_gbx r = true) by (apply H; now left). destruct (gbx_body_props r Hr) as [HL [HE HO]].
+  cbn [flat_map]. unfold gbx_body at 1, gbx_features. rewrite <- !app_assoc.
+  rewrite split_sep_line by exact HL.
+  rewrite split_sep_nlines; [| exact w_slash_nonl | right; eexists; reflexivity | intros l Hl; destruct (HE l Hl) as [A [_ B]]; split; assumption].
+  cbn [app]. rewrite split_sep_miss by reflexivity.
+  rewrite <- !app_assoc.
+  rewrite split_sep_line by exact w_origin_nonl.
+  rewrite split_sep_nlines; [| exact w_slash_nonl | right; eexists; reflexivity | intros l Hl; destruct (HO l Hl) as [A [_ B]]; split; assumption].
+  rewrite split_sep_hit. cbn [app]. rewrite G by (intros r' Hr'; apply H; now right).
+  cbn [consf app]. unfold gbx_body, gbx_features. rewrite <- !app_assoc. cbn [app]. rewrite app_nil_r. reflexivity.
+Qed.
+
+Lemma gbx_origin_split r : ok_gbx r = true ->
+  split_sep s_nl_origin 0 (gbx_body r) = [gbx_features r; nlines (x_olines r)].
+Proof.
+  intros Hr. destruct (gbx_body_props r Hr) as [HL [HE HO]].
+  unfold s_nl_origin, gbx_body, gbx_features. rewrite <- !app_assoc.
+  rewrite split_sep_line by exact HL.
+  rewrite split_sep_nlines; [| exact w_origin_nonl | right; eexists; reflexivity | intros l Hl; destruct (HE l Hl) as [A [B _]]; split; assumption].
+  rewrite split_sep_hit.
+  rewrite <- (app_nil_r (nlines (x_olines r))).
+  rewrite split_sep_nlines; [| exact w_origin_nonl | now left | intros l Hl; destruct (HO l Hl) as [A [B _]]; split; assumption].
+  cbn [split_sep consf app]. rewrite !app_nil_r. reflexivity.
+Qed.
+
+(** bytes.split() tokens of the LOCUS line, also after features[:-1] cut its last character *)
+Lemma split_bws_go_word a : forall cur T, (forall c, In c a -> is_bspace c = false) ->
+  split_bws_go cur (a ++ T) = split_bws_go (rev a ++ cur) T.
+Proof.
+  induction a as [|c a IH]; intros cur T H; [reflexivity|].
+  cbn [app split_bws_go]. rewrite (H c) by now left.
+  rewrite IH by (intros y Hy; apply H; now right). cbn [rev]. now rewrite <- app_assoc.
+Qed.
+
+Lemma split_bws_word w r : w <> [] -> (forall c, In c w -> is_bspace c = false) ->
+  split_bws_go [] (w ++ SP :: r) = w :: split_bws_go [] r.
+Proof.
+  intros Hne Hs. rewrite split_bws_go_word by exact Hs. rewrite app_nil_r. cbn [split_bws_go is_bspace SP].
+  destruct (rev w) as [|x xs] eqn:E.
+  { exfalso. apply Hne. rewrite <- (rev_involutive w), E. reflexivity. }
+  rewrite <- E, rev_involutive. reflexivity.
+Qed.
+
+Lemma not_space_not_bspace c : is_space c = false -> is_bspace c = false.
+Proof. intros H. destruct (is_bspace c) eqn:E; [apply bspace_is_space in E; congruence|reflexivity]. Qed.
+
+Lemma locus_btokens name n tail : gb_token name = true ->
+  split_bws (s_locus ++ repeat SP 7 ++ name ++ [SP] ++ dec n ++ SP :: tail)
+  = s_locus :: name :: dec n :: split_bws_go [] tail.
+Proof.
+  intros Hn. apply gb_token_props in Hn. destruct Hn as [Hne [Hs _]]. unfold split_bws.
+  change (repeat SP 7) with (SP :: repeat SP 6).
+  match goal with |- context [ (SP :: repeat SP 6) ++ ?r ] =>
+    change ((SP :: repeat SP 6) ++ r) with (SP :: (repeat SP 6 ++ r)) end.
+  rewrite split_bws_word; [| discriminate | intros c Hc; cbn in Hc; unfold is_bspace; lia].
+  cbn [repeat app split_bws_go is_bspace SP].
+  rewrite split_bws_word; [| exact Hne | intros c Hc; apply not_space_not_bspace; now apply Hs].
+  rewrite split_bws_word; [reflexivity| apply dec_nonempty | intros c Hc; apply not_space_not_bspace; eapply dec_nospace; exact Hc].
+Qed.
+
+Lemma first_line_tokens r : ok_gbx r = true ->
+  exists T, split_bws (first_line_py (gbx_features r)) = s_locus :: x_name r :: T.
+Proof.
+  intros Hr. destruct (gbx_body_props r Hr) as [HL _]. apply ok_gbx_props in Hr. destruct Hr as [Hn _].
+  unfold first_line_py, gbx_features. destruct (x_extra r) as [|e es].
+  - cbn [nlines flat_map]. rewrite app_nil_r.
+    assert (Hnone : split1 NL (gb_locus_of (x_name r) (x_len r)) = None).
+    { clear -HL. induction (gb_locus_of (x_name r) (x_len r)) as [|c t IH]; [reflexivity|].
+      cbn [split1]. destruct (Z.eqb_spec c NL) as [E|_]; [exfalso; apply (HL c); [now left|exact E]|].
+      rewrite IH by (intros y Hy; apply HL; now right). reflexivity. }
+    rewrite Hnone. unfold gb_locus_of.
+    replace (s_locus ++ repeat SP 7 ++ x_name r ++ [SP] ++ dec (x_len r) ++ [SP; 98; 112; SP; SP; SP; SP; 68; 78; 65])
+      with ((s_locus ++ repeat SP 7 ++ x_name r ++ [SP] ++ dec (x_len r) ++ [SP; 98; 112; SP; SP; SP; SP; 68; 78]) ++ [65])
+      by (rewrite <- !app_assoc; reflexivity).
+    rewrite removelast_last. eexists.
+    rewrite (locus_btokens (x_name r) (x_len r) [98; 112; SP; SP; SP; SP; 68; 78] Hn). reflexivity.
+  - cbn [nlines flat_map app]. rewrite split1_app by exact HL.
+    unfold gb_locus_of. eexists.
+    rewrite (locus_btokens (x_name r) (x_len r) [98; 112; SP; SP; SP; SP; 68; 78; 65] Hn). reflexivity.
+Qed.
+
+Definition gbkeep (c : Z) : bool := negb ((c =? 10) || (c =? 13) || (c =? 9) || (c =? 32) || ((48 <=? c) && (c <=? 57))).
+
+Lemma gbkeep_nlines ols : (forall l, In l ols -> ok_oline l = true) ->
+  filter gbkeep (nlines ols) = concat (map residues ols).
+Proof.
+  induction ols as [|l ols IH]; intros H; [reflexivity|].
+  cbn [nlines flat_map map concat app]. fold (nlines ols).
+  change (filter gbkeep (NL :: l ++ nlines ols)) with (filter gbkeep (l ++ nlines ols)).
+  rewrite filter_app. rewrite IH by (intros l' Hl'; apply H; now right). f_equal.
+  destruct (ok_oline_props l (H l ltac:(now left))) as [_ [_ [_ [_ Hall]]]].
+  unfold residues. apply filter_ext_in. intros c Hc. apply Hall in Hc.
+  unfold gbkeep, is_digit, is_lower_letter, SP in *. lia.
+Qed.
+
+Lemma gb_converter_nlines ols : (forall l, In l ols -> ok_oline l = true) ->
+  gb_converter (nlines ols) = ascii_upper (concat (map residues ols)).
+Proof.
+  intros H. unfold gb_converter. fold gbkeep. now rewrite gbkeep_nlines.
+Qed.
+
+Lemma sl_nlines l0 es : l0 <> [] -> nobrk l0 -> (forall e, In e es -> e <> [] /\ nobrk e) ->
+  py_splitlines (l0 ++ nlines es) = l0 :: es.
+Proof.
+  unfold py_splitlines. revert l0; induction es as [|e es IH]; intros l0 Hne Hn H.
+  - cbn [nlines flat_map]. rewrite app_nil_r. now apply sl_nobrk.
+  - cbn [nlines flat_map app]. fold (nlines es). rewrite sl_line by exact Hn.
+    destruct (H e ltac:(now left)) as [He1 He2]. f_equal. apply IH; [exact He1|exact He2|].
+    intros e' He'. apply H. now right.
+Qed.
+
+Lemma is0_end es : forall cur, cur <> [] ->
+  (forall e, In e es -> gl e /\ match e with c :: _ => is_space c = false | [] => True end) ->
+  indent_split 0 cur es = cur :: map (fun e => [e]) es.
+Proof.
+  induction es as [|e es IH]; intros cur Hc H.
+  - cbn. destruct cur; [congruence|reflexivity].
+  - destruct (H e ltac:(now left)) as [Hg Hs]. rewrite is0_new by assumption. cbn [map]. f_equal.
+    apply IH; [discriminate|]. intros e' He'. apply H. now right.
+Qed.
+
+Lemma gbx_metadata r : ok_gbx r = true ->
+  gb_fields (indent_splitter (py_splitlines (gbx_features r))) None None = GOk (Some (x_name r)) None.
+Proof.
+  intros Hr. pose proof Hr as Hr0. apply ok_gbx_props in Hr. destruct Hr as [Hn [He _]].
+  destruct (locus_line_props (x_name r) (x_len r) Hn) as [[Hlne Hlr] [_ Hnb]].
+  unfold gbx_features. rewrite sl_nlines.
+  - cbn [indent_splitter]. rewrite Hlr.
+    destruct (gb_locus_of (x_name r) (x_len r)) as [|c0 t0] eqn:EL; [congruence|]. rewrite <- EL.
+    assert (Hind : indent_of (gb_locus_of (x_name r) (x_len r)) = O).
+    { unfold indent_of, lstrip. rewrite lstrip_id; [apply Nat.sub_diag|]. unfold gb_locus_of. reflexivity. }
+    rewrite Hind. rewrite is0_end.
+    + cbn [gb_fields]. rewrite handle_locus by exact Hn.
+      assert (Hex : forall es lo sq, (forall e, In e es -> ok_gb_extra e = true) ->
+                gb_fields (map (fun e => [e]) es) lo sq = GOk lo sq).
+      { induction es as [|e es IH]; intros lo sq H; [reflexivity|].
+        cbn [map gb_fields]. rewrite handle_extra by (apply H; now left). apply IH. intros e' He'. apply H. now right. }
+      now apply Hex.
+    + discriminate.
+    + intros e Hx. destruct (ok_gb_extra_props e (He e Hx)) as [Hg [Hs _]]. split; assumption.
+  - exact Hlne.
+  - exact Hnb.
+  - intros e Hx. destruct (ok_gb_extra_props e (He e Hx)) as [[Hne _] [_ [_ [Hp _]]]]. split; [exact Hne|].
+    intros c Hc. apply Hp in Hc. now apply plain_props in Hc.
+Qed.
+
+Lemma gbx_bytes_record r : ok_gbx r = true ->
+  gb_bytes_record (gbx_body r) = GRecs [(Some (x_name r), Some (ascii_upper (gbx_seq r)))].
+Proof.
+  intros Hr. unfold gb_bytes_record. rewrite gbx_origin_split by exact Hr.
+  destruct (first_line_tokens r Hr) as [T ET]. rewrite ET.
+  rewrite gbx_metadata by exact Hr.
+  apply ok_gbx_props in Hr. destruct Hr as [_ [_ [_ Ho]]].
+  rewrite gb_converter_nlines by exact Ho. reflexivity.
+Qed.
+
+Lemma lstrip_body r : ok_gbx r = true ->
+  lstrip_by is_bspace (gbx_body r) = gbx_body r /\ lstrip_by is_bspace (NL :: gbx_body r) = gbx_body r /\ gbx_body r <> [].
+Proof.
+  intros _. unfold gbx_body, gbx_features, gb_locus_of. repeat split; try reflexivity. discriminate.
+Qed.
+
+Lemma gb_bytes_fixed_roundtrip recs : (forall r, In r recs -> ok_gbx r = true) ->
+  gb_bytes_parser true (gbx_write recs) = GRecs (gbx_expected_upper recs).
+Proof.
+  intros H. unfold gb_bytes_parser. rewrite gbx_pieces by exact H.
+  destruct recs as [|r recs]; [reflexivity|].
+  assert (G : forall recs, (forall r, In r recs -> ok_gbx r = true) ->
+            gb_bytes_go true (map (fun r' => NL :: gbx_body r') recs ++ [[NL]]) = GRecs (gbx_expected_upper recs)).
+  { clear. induction recs as [|r recs IH]; intros H; [reflexivity|].
+    assert (Hr : ok_gbx r = true) by (apply H; now left). destruct (lstrip_body r Hr) as [_ [L2 Lne]].
+    cbn [map app gb_bytes_go]. rewrite L2. destruct (gbx_body r) as [|c0 t0] eqn:E; [congruence|]. rewrite <- E.
+    rewrite gbx_bytes_record by exact Hr. rewrite IH by (intros r' Hr'; apply H; now right). reflexivity. }
+  assert (Hr : ok_gbx r = true) by (apply H; now left). destruct (lstrip_body r Hr) as [L1 [_ Lne]].
+  cbn [gb_bytes_go]. rewrite L1. destruct (gbx_body r) as [|c0 t0] eqn:E; [congruence|]. rewrite <- E.
+  rewrite gbx_bytes_record by exact Hr. rewrite G by (intros r' Hr'; apply H; now right). reflexivity.
+Qed.
+
+(** pinned source (records are not stripped): a single record is read ... *)
+Lemma gb_bytes_pinned_single r : ok_gbx r = true ->
+  gb_bytes_parser false (gbx_write [r]) = GRecs (gbx_expected_upper [r]).
+Proof.
+  intros Hr. unfold gb_bytes_parser. rewrite gbx_pieces by (intros r' [<-|[]]; exact Hr).
+  cbn [map app gb_bytes_go]. destruct (lstrip_body r Hr) as [_ [_ Lne]].
+  assert (Hns : bytes_isspace (gbx_body r) = false).
+  { unfold gbx_body, gbx_features, gb_locus_of. reflexivity. }
+  rewrite Hns. rewrite gbx_bytes_record by exact Hr. reflexivity.
+Qed.
+
+(** ... but every file with more than one record raises IndexError (finding genbank-parsers:bytes-readers:multi-record) *)
+Definition gbx_w1 : gbx := {| x_name := [65; 66]; x_len := 4; x_extra := []; x_olines := [[32; 49; 32; 97; 99; 103; 116]] |}.
+Lemma gb_bytes_pinned_multi_refuted :
+  ok_gbx gbx_w1 = true /\ gb_bytes_parser false (gbx_write [gbx_w1; gbx_w1]) = GErr 1
+  /\ gb_lines_parser (py_splitlines (gbx_write [gbx_w1; gbx_w1])) = GRecs (gbx_expected [gbx_w1; gbx_w1]).
+Proof. repeat split; vm_compute; reflexivity. Qed.
+
+(** the standard layout is an instance of the grammar *)
+Lemma gbx_of_lines r : gbx_lines (gbx_of r) = gb_record_lines r.
+Proof. reflexivity. Qed.
+
+Example gbx_standard_ex :
+  let r := {| gb_name := [65; 66; 49; 50; 51]; gb_extra := [[68; 69; 70; 73; 78; 73; 84; 73; 79; 78; 32; 32; 120; 46]];
+              gb_seq := repeat 97 61 ++ [99; 103; 116] |} in
+  ok_gbx (gbx_of r) = true /\ gbx_seq (gbx_of r) = gb_seq r.
+Proof. split; vm_compute; reflexivity. Qed.
+
+Definition upper_rec (p : option str * option str) : option str * option str :=
+  (fst p, match snd p with Some s => Some (ascii_upper s) | None => None end).
+
+Lemma gbx_expected_upper_map recs : gbx_expected_upper recs = map upper_rec (gbx_expected recs).
+Proof. unfold gbx_expected_upper, gbx_expected. rewrite map_map. reflexivity. Qed.
+
+Lemma gb_readers_agree_fixed recs : (forall r, In r recs -> ok_gbx r = true) ->
+  exists l, gb_lines_parser (py_splitlines (gbx_write recs)) = GRecs l
+            /\ gb_bytes_parser true (gbx_write recs) = GRecs (map upper_rec l).
+Proof.
+  intros H. exists (gbx_expected recs). split; [now apply gb_lines_roundtrip|].
+  rewrite gb_bytes_fixed_roundtrip by exact H. now rewrite gbx_expected_upper_map.
+Qed.
